@@ -18,6 +18,7 @@ import (
 	"sync/atomic"
 	"testing/synctest"
 	"time"
+	"unsafe"
 )
 
 // Config of one run. Everything here is part of the replay file.
@@ -59,6 +60,30 @@ type G struct {
 	waiting  bool // waiting for quiescence
 	prio     int  // policy pct: the runnable goroutine with the highest priority runs
 	hasPrio  bool
+	// tick counts what the goroutine has done that may order it after others:
+	// scheduling points passed and synchronisation operations entered. Two
+	// moments with the same tick have nothing of the kind between them.
+	tick uint64
+}
+
+// MapRace is a pair of conflicting accesses to one map, by two goroutines,
+// that nothing orders: the second happened while the goroutine of the first
+// had not executed anything since its own (it stood at the scheduling point
+// that follows the statement, or before it). With real threads the two may
+// run at the same instant, which the run-time answers with a fatal error
+// ("concurrent map read and map write", "concurrent map writes").
+type MapRace struct {
+	First, Second           string // statement sites
+	FirstWrite, SecondWrite bool
+	G1, G2                  string
+	Node                    string
+}
+
+type mapRec struct {
+	g     *G
+	tick  uint64
+	write bool
+	site  string
 }
 
 // GInfo describes a goroutine alive at the end of a run.
@@ -105,6 +130,8 @@ type Sim struct {
 	efp     uint64
 	Ext     map[string]interface{}
 	waiters []*G
+	maps    map[unsafe.Pointer][]mapRec
+	races   []MapRace
 }
 
 var cur atomic.Pointer[Sim]
@@ -238,6 +265,7 @@ func (s *Sim) yield(site string, force bool) {
 			cover[site]++
 			s.gap -= s.weight(site)
 			if s.gap > 0 {
+				g.tick++
 				s.mu.Unlock()
 				return
 			}
@@ -752,8 +780,84 @@ func (s *Sim) resumeLocked(g *G) {
 	}
 	g.parked = false
 	g.waiting = false
+	g.tick++
 	s.holder = g
 	s.last = g
+}
+
+// SyncOp is called by the synchronisation shims on entry of every operation.
+func SyncOp() {
+	s := cur.Load()
+	if s == nil {
+		return
+	}
+	id := goid()
+	s.mu.Lock()
+	if g := s.gs[id]; g != nil {
+		g.tick++
+	}
+	s.mu.Unlock()
+}
+
+// M is inserted before a statement that reads (or writes) the map m and does
+// nothing that could synchronise with another goroutine (no call, no channel
+// operation). It reports the access as a race when another goroutine has
+// touched the same map, one of the two writing, and has not moved since.
+func M(m interface{}, write bool, site string) {
+	s := cur.Load()
+	if s == nil {
+		return
+	}
+	p := reflect.ValueOf(m).UnsafePointer()
+	if p == nil {
+		return
+	}
+	id := goid()
+	s.mu.Lock()
+	defer s.mu.Unlock()
+	g := s.gs[id]
+	if g == nil {
+		return
+	}
+	if s.maps == nil {
+		s.maps = map[unsafe.Pointer][]mapRec{}
+	}
+	recs := s.maps[p]
+	keep := recs[:0]
+	own := false
+	for _, r := range recs {
+		if r.g.done || r.g.tick != r.tick {
+			continue // its goroutine has moved on: order can no longer be excluded
+		}
+		if r.g == g {
+			own = own || r.write // (several accesses of one statement)
+			continue
+		}
+		if r.write || write {
+			dup := false
+			for _, x := range s.races {
+				if x.First == r.site && x.Second == site {
+					dup = true
+				}
+			}
+			if !dup {
+				s.races = append(s.races, MapRace{First: r.site, Second: site, FirstWrite: r.write, SecondWrite: write, G1: r.g.name, G2: g.name, Node: g.node})
+				if s.cfg.Trace {
+					s.trace = append(s.trace, fmt.Sprintf("map race: %s (%s) then %s (%s)", r.site, r.g.name, site, g.name))
+				}
+			}
+		}
+		keep = append(keep, r)
+	}
+	keep = append(keep, mapRec{g, g.tick, write || own, site})
+	s.maps[p] = keep
+}
+
+// MapRaces returns the unordered conflicting map accesses seen so far.
+func (s *Sim) MapRaces() []MapRace {
+	s.mu.Lock()
+	defer s.mu.Unlock()
+	return append([]MapRace(nil), s.races...)
 }
 
 // idle advances the simulated clock; it reports whether something became
